@@ -14,6 +14,58 @@ SRV = "aiohttp/web_server.py"
 PROTO = "aiohttp/web_protocol.py"
 
 
+def hunt5_rules(chk, repo):
+    """Rules written after the fifth defect hunt (F310, F312, F317)."""
+    sh = repo.func(PROTO, "RequestHandler.shutdown")
+    # ---- C20.idle.shutdown: shutdown() itself closes a connection that only waits for its next request ------------------------------------------------------
+    # Server.shutdown(timeout) is the documented low-level API; only the runners call pre_shutdown() first.  Without it an idle keep-alive
+    # connection was waited for under the full timeout (for ever with timeout=None).
+    g = cfg_of(sh.node)
+    aws = [n for n in g.nodes if n.in_finally_copy is None and isinstance(getattr(n, "ast", None), ast.AST) and n.kind in ("stmt", "test", "with-enter") and K.node_suspends(n, repo)]
+    closes = [n for n in g.nodes if n.kind == "stmt" and isinstance(getattr(n, "ast", None), ast.AST) and (K.node_has(n, "self.close()") or K.node_has(n, "self._waiter.cancel()"))]
+    def not_idle(a, b, k):
+        # leaving the idle test on the side that says `not idle` is fine
+        return a.kind == "test" and "self._waiter" in norm.raw(a.ast) and k == "F"
+    p_ = K.find_path_edges(g, [g.entry], lambda n: n in aws, lambda n: n in closes, not_idle, EXPLICIT) if aws else None
+    if aws and closes and p_ is None:
+        chk.ok("C20.idle.shutdown", closes[0].ast, "shutdown(): a connection whose start() waits for the next request is closed before anything is awaited")
+    else:
+        chk.violation("C20.idle.shutdown", sh, K.short(aws[0].ast) if aws else "shutdown()", "if self._waiter is not None and not self._waiter.done(): self.close()   before the waits",
+                      "RequestHandler.shutdown() waits for the idle start() task under the full timeout and nothing cancels its waiter except the undocumented Server.pre_shutdown() that only the runners call: `await server.shutdown(3)` with idle keep-alive connections takes 3 s, `server.shutdown()` with timeout=None never returns - idle connections are not closed at once", path=g.fmt_path(p_) if p_ else None)
+    # ---- C20.announce: a response that is finished on a connection which closes after it says so -------------------------------------------------------------
+    fr = repo.func(PROTO, "RequestHandler.finish_response")
+    gf = cfg_of(fr.node)
+    prep = [n for n in gf.nodes if n.in_finally_copy is None and isinstance(getattr(n, "ast", None), ast.AST) and n.kind == "stmt" and K.node_has(n, "await prepare_meth($R)")]
+    fcl = [n for n in gf.nodes if n.kind == "stmt" and isinstance(getattr(n, "ast", None), ast.AST) and K.node_has(n, "resp.force_close()")]
+    def staying(a, b, k):
+        t = norm.raw(a.ast) if a.kind == "test" else ""
+        return a.kind == "test" and k == "F" and "self._close" in t and "self._force_close" in t
+    if not prep:
+        chk.analysis_error("C20.announce: `await prepare_meth(request)` not found in RequestHandler.finish_response")
+    else:
+        p2 = K.find_path_edges(gf, [gf.entry], lambda n: n in prep, lambda n: n in fcl, staying, EXPLICIT)
+        if p2 is None and fcl:
+            chk.ok("C20.announce", fcl[0].ast, "finish_response(): on a connection marked for closing (close() / shutdown) the response is told not to keep the connection alive before its head is prepared")
+        else:
+            chk.violation("C20.announce", prep[0].ast, K.short(prep[0].ast), "if self._close or self._force_close: resp.force_close()   before the response is prepared",
+                          "a response that completes during shutdown carries no `Connection: close` (HTTP/1.0 keep-alive even says `Connection: keep-alive`) although the server closes the socket right after the body: the client's next request on that connection gets ConnectionResetError (F168 repaired this for keepalive_timeout=0 only)", path=gf.fmt_path(p2) if p2 else None)
+    # ---- C20.order.exact: the two phases of shutdown() are bounded by the timeout, not by the timeout rounded up ---------------------------------------------
+    scopes = [it.context_expr for w in ast.walk(sh.node) if isinstance(w, ast.AsyncWith) for it in w.items if _timeout_scope(it.context_expr)]
+    rounded = [e for e in scopes if norm.raw(e.func) == "ceil_timeout" and not (len(e.args) > 1 and "inf" in norm.raw(e.args[1])) and not any(k.arg == "ceil_threshold" and "inf" in norm.raw(k.value) for k in e.keywords)]
+    if scopes and not rounded:
+        chk.ok("C20.order.exact", scopes[0], "shutdown(): the wait for the handler and the wait after its cancellation end exactly after `timeout` each (no rounding up to a whole second)")
+    elif scopes:
+        chk.violation("C20.order.exact", rounded[0], K.short(rounded[0]), "ceil_timeout(timeout, float('inf'))",
+                      "ceil_timeout() rounds a deadline of more than 5 s up to a whole second: each of the two phases can last up to a second longer, so a handler is cancelled later than twice the timeout - under gunicorn (shutdown_timeout = graceful_timeout / 2 * 0.95) the worker is SIGKILLed before Application.cleanup() runs and no cleanup context exits")
+    wk = repo.cls("aiohttp/worker.py", "GunicornWebWorker")
+    he = wk.methods.get("handle_exit")
+    if he is not None and M.contains(he.node, "self._notify_waiter_done()") and any(isinstance(a, ast.Assign) and norm.raw(a.targets[0]) == "self.alive" and isinstance(a.value, ast.Constant) and a.value.value is False for a in ast.walk(he.node)):
+        chk.ok("C20.order.worker", he, "GunicornWebWorker.handle_exit(): SIGTERM wakes the worker's wait at once - the graceful stop starts when graceful_timeout starts")
+    else:
+        chk.violation("C20.order.worker", wk.node, "handle_exit (inherited)", "def handle_exit(self, sig, frame): self.alive = False; self._notify_waiter_done()",
+                      "SIGTERM only sets alive=False; _run() notices it up to a second later (the notify waiter is not woken), a second of the graceful_timeout budget that the two shutdown phases were sized to fill: the arbiter's SIGKILL arrives before Application.cleanup() and the cleanup contexts never exit")
+
+
 def _timeout_scope(e) -> bool:
     """`ceil_timeout(timeout[, threshold])` / `async_timeout.timeout(timeout)`: a scope bounded by the `timeout` parameter (the rounding threshold
     of ceil_timeout only moves the deadline by less than a second and is not part of the obligation)."""
@@ -266,6 +318,7 @@ def run(chk):
             else:
                 chk.violation("C20.entry", c, "await runner.setup()", "try: ... except BaseException: await runner.cleanup(); raise", "gunicorn worker: when a later startup step fails, contexts whose startup completed are never exited")
     hunt2_rules(chk, repo)
+    hunt5_rules(chk, repo)
     hunt4_rules(chk, repo)
     # ---- drain: a request that is being handled keeps receiving its input while the server waits for it ---------------------------
     dr = repo.func(PROTO, "RequestHandler.data_received")
@@ -317,7 +370,9 @@ def hunt4_rules(chk, repo):
     # closes idle connections through close(), which leaves self.transport in place; whatever shutdown() calls afterwards must test is_closing().
     late = {c.func.attr for c in prog.calls_in(sh.node) if isinstance(c.func, ast.Attribute) and norm.raw(c.func.value) == "self" and c.func.attr in rh.methods}
     nclose = 0
-    for mname in sorted(late | {"shutdown"}):
+    # (fifth hunt, F311) ... and so must the end of start(): a handler may have closed the transport itself (WebSocketResponse), shutdown()'s
+    # final abort() then finds a detached TLS transport and the socket outlives cleanup() by asyncio's 30 s
+    for mname in sorted(late | {"shutdown", "start"}):
         for c in [c for c in prog.calls_in(rh.methods[mname].node) if norm.raw(c.func) in ("self.transport.close", "transport.close")]:
             nclose += 1
             recv = norm.raw(c.func.value)
